@@ -248,6 +248,49 @@ impl<'a> Decoder for DecoderV1<'a> {
 }
 
 // ---------------------------------------------------------------------------------------------
+// DecoderV2 (yrs/src/updates/decoder.rs), SLICED exactly as in unit lib0_v2 (units/lib0_v2/dec.rs) to the fields the
+// delete-set readers touch.  Its real `Read` / `Decoder` method bodies satisfy the ABSTRACT contract of `Decoder` (the exact
+// v2 semantics -- running clock, checked additions -- is proved in unit lib0_v2): the composite decoders below are
+// therefore total, progressing and within the allocation budget on v2 input as well.
+// ---------------------------------------------------------------------------------------------
+pub struct DecoderV2<'a> {
+    pub cursor: Cursor<'a>,
+    pub ds_curr_val: u32,
+}
+
+impl<'a> Read for DecoderV2<'a> {
+    open spec fn rest(&self) -> Seq<u8> {
+        self.cursor.rest()
+    }
+
+    open spec fn wf(&self) -> bool {
+        self.cursor.wf()
+    }
+
+    /*@extract yrs/src/updates/decoder.rs | impl<'a> Read for DecoderV2<'a> | fn read_exact | label=decoder_v2_read_exact @*/
+
+    /*@extract yrs/src/updates/decoder.rs | impl<'a> Read for DecoderV2<'a> | fn read_u8 | label=decoder_v2_read_u8 @*/
+}
+
+impl<'a> Decoder for DecoderV2<'a> {
+    open spec fn v1() -> bool {
+        false
+    }
+
+    /*@extract yrs/src/updates/decoder.rs | impl<'a> Decoder for DecoderV2<'a> | fn reset_ds_cur_val | label=decoder_v2_reset_ds_cur_val @*/
+
+    /*@extract yrs/src/updates/decoder.rs | impl<'a> Decoder for DecoderV2<'a> | fn read_ds_clock | label=decoder_v2_read_ds_clock
+    @start
+        proof { lemma_dec_u32_bounded(self.rest()); lemma_suffix_skip(self.rest(), 0); if dec_u32(self.rest()) is Some { lemma_suffix_skip(self.rest(), dec_u32(self.rest())->Some_0.1); } }
+    @*/
+
+    /*@extract yrs/src/updates/decoder.rs | impl<'a> Decoder for DecoderV2<'a> | fn read_ds_len | label=decoder_v2_read_ds_len
+    @start
+        proof { lemma_dec_u32_bounded(self.rest()); lemma_suffix_skip(self.rest(), 0); if dec_u32(self.rest()) is Some { lemma_suffix_skip(self.rest(), dec_u32(self.rest())->Some_0.1); } }
+    @*/
+}
+
+// ---------------------------------------------------------------------------------------------
 // trait Decode (yrs/src/updates/decoder.rs).  The trait-level contract IS the generic part of C10 for every decodable
 // type:  TOTAL (returns Ok / Err on every input: no panic, no overflow, termination), never rewinds and never reads
 // beyond the input, and PROGRESS: a successful decode has consumed at least one byte.  The impls add their own clauses.
@@ -261,6 +304,12 @@ pub trait Decode: Sized {
             suffix_of(old(decoder).rest(), final(decoder).rest()),
             res is Ok ==> final(decoder).rest().len() < old(decoder).rest().len(),
     ;
+
+    // the PUBLIC ENTRY POINT `X::decode_v1(bytes)`: NO precondition -- for every byte slice it returns Ok or Err
+    // (`DecoderV1::from(data)` is inlined: the body of `impl From<&[u8]> for DecoderV1` is checked to be `Self::new(Cursor::new(buf))`)
+    /*@extract yrs/src/updates/decoder.rs | trait Decode: Sized | fn decode_v1 | label=decode_v1 | rules=INLINE(file=yrs/src/updates/decoder.rs;;container=impl<'a> From<&'a [u8]> for DecoderV1<'a>;;fn=from;;body=Self::new(Cursor::new(buf));;call=DecoderV1::from(data);;to=DecoderV1::new(Cursor::new(data)))
+    @ret res
+    @*/
 }
 
 /// consuming a prefix of what is left after consuming a prefix
